@@ -607,6 +607,17 @@ impl Check {
         }
     }
 
+    /// a violation established outside of a case function (e.g. a process-level abort pinned by a fuzzer artifact)
+    pub fn external_violation(&self, key: &str, what: &str, replay: &str) {
+        if self.known_open(key).is_some() {
+            let mut st = self.stats.lock().unwrap();
+            *st.known_hits.entry(key.to_string()).or_insert(0) += 1;
+            return;
+        }
+        let mut st = self.stats.lock().unwrap();
+        st.violations.push(ViolationRec { key: key.into(), what: what.into(), section: "external".into(), replay: replay.into() });
+    }
+
     pub fn inconclusive(&self, why: String) {
         self.stats.lock().unwrap().inconclusive.push(why);
     }
